@@ -289,6 +289,8 @@ fn reach_ids(d: &Document) -> BTreeSet<Id> {
 struct PageObs {
     id: Id,
     content: Result<Vec<u8>, String>,
+    /// tokens of the content, each stream tokenised on its own (ISO 32000-1 7.8.2: streams are divided only at token boundaries)
+    toks: Vec<Vec<u8>>,
     lib_agrees: bool,
     lib_content: String,
     usable: ResSet,
@@ -333,15 +335,16 @@ fn page_tree(d: &Document) -> (Vec<Id>, Vec<String>, BTreeSet<Id>) {
     (w.leaves, w.bad, w.nodes)
 }
 
-fn page_content(d: &Document, page: Id, deps: &mut BTreeSet<Id>) -> Result<Vec<u8>, String> {
+/// decoded data of each content stream of the page, in order
+fn page_content(d: &Document, page: Id, deps: &mut BTreeSet<Id>) -> Result<Vec<Vec<u8>>, String> {
     let pd = match dict_of(d, page) { Some(x) => x, None => return Err("page is not a dictionary".into()) };
     let c = match pd.get(b"Contents") { Ok(c) => c, Err(_) => return Ok(vec![]) };
     match deref_ids(d, c, deps) {
-        Some(Object::Stream(s)) => decode_stream(s),
+        Some(Object::Stream(s)) => Ok(vec![decode_stream(s)?]),
         Some(Object::Array(a)) => {
             let mut out = vec![];
             for e in a {
-                if let Some(Object::Stream(s)) = deref_ids(d, e, deps) { out.extend(decode_stream(s)?); }
+                if let Some(Object::Stream(s)) = deref_ids(d, e, deps) { out.push(decode_stream(s)?); }
             }
             Ok(out)
         }
@@ -392,7 +395,9 @@ fn observe(d: &Document) -> Obs {
     let mut pages = vec![];
     for id in leaves {
         let mut cdeps = BTreeSet::new();
-        let content = page_content(d, id, &mut cdeps);
+        let chunks = page_content(d, id, &mut cdeps);
+        let toks: Vec<Vec<u8>> = chunks.as_ref().map(|c| c.iter().flat_map(|x| tokens(x)).collect()).unwrap_or_default();
+        let content = chunks.map(|c| c.concat());
         let mut rdeps = BTreeSet::new();
         let us = usable(d, id, &mut rdeps);
         let lib = d.get_page_content(id);
@@ -401,7 +406,7 @@ fn observe(d: &Document) -> Obs {
             (Ok(_), Err(e)) => (false, format!("Err({})", e)),
             (Err(_), _) => (true, String::new()),
         };
-        pages.push(PageObs { id, content, lib_agrees, lib_content, usable: us, cdeps, rdeps });
+        pages.push(PageObs { id, content, toks, lib_agrees, lib_content, usable: us, cdeps, rdeps });
     }
     Obs { pages, counts_bad: bad, tree_nodes: nodes, reach }
 }
@@ -933,6 +938,7 @@ fn erase_refs(o: &Object) -> Object {
 
 fn step(pre: &State, op: &Op) -> StepResult {
     let mut fails: Vec<(String, String)> = vec![];
+    let predoc = &pre.doc;
     let mut post = pre.doc.clone();
     let pages: Vec<Id> = pre.obs.pages.iter().map(|p| p.id).collect();
     let out = match quiet(|| apply(&mut post, op, &pages)) {
@@ -943,11 +949,11 @@ fn step(pre: &State, op: &Op) -> StepResult {
         Ok(o) => o,
         Err(p) => return StepResult { next: None, fails: vec![("no-panic".into(), format!("get_page_content on the state after {:?} panicked: {}", op, p))], changed: true },
     };
-    let predoc = &pre.doc;
     let reach = &pre.obs.reach;
-    let fresh_obl = if pre.beyond || *op == Op::SetBeyond { "fresh-id-after-set-object-above-max-id" } else { "fresh-id" };
+    let sets_beyond = match op { Op::SetBeyond => true, Op::Replace(id) => !predoc.objects.contains_key(id) && id.0 > predoc.max_id, _ => false };
+    let fresh_obl = if pre.beyond || sets_beyond { "fresh-id-after-set-object-above-max-id" } else { "fresh-id" };
     let mut allocated = pre.allocated.clone();
-    let mut beyond = pre.beyond || *op == Op::SetBeyond;
+    let mut beyond = pre.beyond || sets_beyond;
     let new_keys: Vec<Id> = post.objects.keys().filter(|k| !predoc.objects.contains_key(k)).cloned().collect();
     let is_fresh = |id: &Id| !predoc.objects.contains_key(id) && !pre.allocated.contains(id);
     let pre_page = |id: Id| pre.obs.pages.iter().find(|p| p.id == id);
@@ -998,6 +1004,7 @@ fn step(pre: &State, op: &Op) -> StepResult {
         }
         Op::Replace(id) => {
             exempt.insert(*id);
+            allocated.remove(id);
             if post.objects.get(id) != Some(&repl_obj(predoc.objects.get(id))) { fails.push(("replace-stores-object".into(), format!("set_object({:?}) did not store the object", id))); }
             touching(*id, &mut skip_c, &mut skip_r);
         }
@@ -1054,7 +1061,10 @@ fn step(pre: &State, op: &Op) -> StepResult {
                 if shapes(predoc) != shapes(&post) { fails.push(("renumber-preserves-objects".into(), "the objects, references blanked, are not the same collection before and after".into())); }
             }
             if obs.pages.len() == pre.obs.pages.len() {
-                for (k, b) in predoc.bookmark_table.iter() {
+                let mut in_tree = vec![];
+                let mut todo: Vec<u32> = predoc.bookmarks.clone();
+                while let Some(x) = todo.pop() { if in_tree.len() > 64 { break; } if let Some(b) = predoc.bookmark_table.get(&x) { in_tree.push(x); todo.extend(b.children.iter().cloned()); } }
+                for (k, b) in predoc.bookmark_table.iter().filter(|(k, _)| in_tree.contains(k)) {
                     if let Some(pos) = pages.iter().position(|p| *p == b.page) {
                         let now = post.bookmark_table.get(k).map(|x| x.page);
                         if now != Some(obs.pages[pos].id) { fails.push(("renumber-bookmark-page".into(), format!("bookmark {} pointed at page number {} ({:?}); afterwards it points at {:?}, page number {} is {:?}", k, pos + 1, b.page, now, pos + 1, obs.pages[pos].id))); }
@@ -1092,14 +1102,8 @@ fn step(pre: &State, op: &Op) -> StepResult {
                                     Op::AddToContent(_) => {
                                         if after.starts_with(before) && tokens(&after[before.len()..]) == vec![b"q".to_vec(), b"Q".to_vec()] { Ok(()) } else { Err("expected the old content followed by the operations q and Q".into()) }
                                     }
-                                    Op::InsertImage(_) => {
-                                        let (tb, ta) = (tokens(before), tokens(after));
-                                        check_insert(&post, page, &tb, &ta, true)
-                                    }
-                                    _ => {
-                                        let (tb, ta) = (tokens(before), tokens(after));
-                                        check_insert(&post, page, &tb, &ta, false)
-                                    }
+                                    Op::InsertImage(_) => check_insert(&post, page, &pp.toks, &qp.toks, true),
+                                    _ => check_insert(&post, page, &pp.toks, &qp.toks, false),
                                 }
                             };
                             if let Err(e) = verdict { fails.push(("page-content".into(), format!("page {:?} after {:?} -> {}: {}; content before {:?}, after {:?}", page, op, res_str(&out), e, show(before), show(after)))); }
@@ -1138,11 +1142,11 @@ fn step(pre: &State, op: &Op) -> StepResult {
                             for (id, o) in predoc.objects.iter() {
                                 if crate::gen::is_bookkeeping_object(o) { continue; }
                                 let same = match (o, l.objects.get(id)) {
-                                    (Object::Stream(a), Some(Object::Stream(b))) => a.content == b.content && dict_eq(&a.dict, &b.dict, &[]),
+                                    (Object::Stream(a), Some(Object::Stream(b))) => a.content == b.content && dict_eq(&a.dict, &b.dict, &[b"Length"]),
                                     (a, Some(b)) => obj_eq(a, b),
                                     (_, None) => false,
                                 };
-                                if !same { fails.push(("save-reload".into(), format!("object {:?} was {:?} when saved, the saved file gives {:?}", id, o, l.objects.get(id)))); break; }
+                                if !same { fails.push((if pre.beyond { "save-reload-after-set-object-above-max-id" } else { "save-reload" }.into(), format!("object {:?} was {:?} when saved, the saved file gives {:?}", id, o, l.objects.get(id)))); break; }
                             }
                             if !dict_eq(&predoc.trailer, &l.trailer, BOOKKEEPING) { fails.push(("save-reload".into(), format!("trailer {:?} reloads as {:?}", predoc.trailer, l.trailer))); }
                         }
@@ -1154,7 +1158,7 @@ fn step(pre: &State, op: &Op) -> StepResult {
     }
 
     // identifiers: nothing new may land on an id that was handed out earlier
-    if *op != Op::Renumber {
+    if !matches!(op, Op::Renumber | Op::Replace(_) | Op::SetBeyond) {
         for k in &new_keys {
             if pre.allocated.contains(k) { fails.push((fresh_obl.into(), format!("{:?} created object {:?}, an id new_object_id had handed out before", op, k))); }
         }
@@ -1238,7 +1242,7 @@ fn step(pre: &State, op: &Op) -> StepResult {
         if a.lib_agrees && !b.lib_agrees {
             fails.push(("page-content-read".into(), format!("after {:?} get_page_content({:?}) gives {:?}, the page's streams decode to {:?}", op, b.id, b.lib_content, b.content.as_ref().map(|x| show(x)))));
         }
-        if !skip_r.contains(&a.id) && !matches!(op, Op::Delete(_) | Op::Replace(_)) || (matches!(op, Op::Delete(_) | Op::Replace(_)) && !skip_r.contains(&a.id)) {
+        if !skip_r.contains(&a.id) && !matches!(op, Op::Delete(_) | Op::Replace(_)) {
             let lost: Vec<String> = a.usable.difference(&b.usable).map(|(c, n)| format!("/{} /{}", String::from_utf8_lossy(c), String::from_utf8_lossy(n))).collect();
             if !lost.is_empty() { fails.push(("resources-monotone".into(), format!("after {:?} page {:?} can no longer use {}", op, b.id, lost.join(", ")))); }
         }
@@ -1316,7 +1320,7 @@ fn start_state(gen_doc: &Document, bms: &[BmSpec], loaded: bool) -> Result<State
 fn doc_json(d: &Document, bms: &[BmSpec]) -> Value {
     json!({
         "version": d.version,
-        "xref_stream": d.reference_table.cross_reference_type == XrefType::CrossReferenceStream,
+        "xref_stream": matches!(d.reference_table.cross_reference_type, XrefType::CrossReferenceStream),
         "max_id": d.max_id,
         "objects": d.objects.iter().map(|(id, o)| json!({"id": id.0, "gen": id.1, "obj": obj_json(o)})).collect::<Vec<_>>(),
         "trailer": obj_json(&Object::Dictionary(d.trailer.clone())),
@@ -1344,7 +1348,7 @@ fn seed_check(s: &Seed, loaded: bool) -> Vec<(String, String)> {
     if loaded {
         for (id, o) in s.doc.objects.iter() {
             let same = match (o, st.doc.objects.get(id)) {
-                (Object::Stream(a), Some(Object::Stream(b))) => a.content == b.content && dict_eq(&a.dict, &b.dict, &[]),
+                (Object::Stream(a), Some(Object::Stream(b))) => a.content == b.content && dict_eq(&a.dict, &b.dict, &[b"Length"]),
                 (a, Some(b)) => obj_eq(a, b),
                 _ => false,
             };
@@ -1369,7 +1373,9 @@ fn seed_check(s: &Seed, loaded: bool) -> Vec<(String, String)> {
 struct FailRec { key: (usize, usize, usize, Vec<usize>), obligation: String, detail: String, input: Value }
 
 #[derive(Default)]
-struct Local { evals: u64, nontrivial: u64, fails: BTreeMap<String, Vec<FailRec>>, counts: BTreeMap<String, u64>, samples: Vec<String> }
+struct Local { evals: u64, nontrivial: u64, fails: BTreeMap<String, Vec<FailRec>>, counts: BTreeMap<String, u64>, samples: Vec<String>, sigs: BTreeMap<String, BTreeSet<String>> }
+
+static DEBUG: std::sync::atomic::AtomicBool = std::sync::atomic::AtomicBool::new(false);
 
 impl Local {
     fn add(&mut self, obligation: &str, detail: String, key: (usize, usize, usize, Vec<usize>), input: impl FnOnce() -> Value) {
@@ -1391,6 +1397,7 @@ impl Local {
             v.truncate(3);
         }
         for s in o.samples { if self.samples.len() < 4 { self.samples.push(s); } }
+        for (k, v) in o.sigs { let e = self.sigs.entry(k).or_default(); for x in v { if e.len() < 400 { e.insert(x); } } }
     }
 }
 
@@ -1410,6 +1417,10 @@ fn node(st: &State, i: usize, depth_left: usize, path: &mut Vec<usize>, prior: u
     }
     let failed = !r.fails.is_empty();
     for (ob, det) in r.fails {
+        if DEBUG.load(std::sync::atomic::Ordering::Relaxed) && prior == 0 {
+            let e = loc.sigs.entry(ob.clone()).or_default();
+            if e.len() < 400 { e.insert(format!("{} last={:?} :: {}", ctx.seed.name, ctx.ops[i], det.chars().take(260).collect::<String>())); }
+        }
         let key = (prior, path.len(), ctx.start_index, path.clone());
         let seq: Vec<&Op> = path.iter().map(|k| &ctx.ops[*k]).collect();
         let detail = format!("seed '{}' ({}), calls {:?}{}: {}", ctx.seed.name, if ctx.loaded { "loaded" } else { "generated" }, seq,
@@ -1441,6 +1452,7 @@ each seed once as generated and once as loaded from its own saved file; every st
     let prev = std::panic::take_hook();
     std::panic::set_hook(Box::new(|_| {}));
 
+    if std::env::var("C11_DEBUG").is_ok() { DEBUG.store(true, std::sync::atomic::Ordering::Relaxed); }
     let mut total = Local::default();
     // the start documents themselves
     let mut starts: Vec<(usize, bool)> = vec![];
@@ -1488,6 +1500,7 @@ each seed once as generated and once as loaded from its own saved file; every st
         rep.fail(&r.obligation, format!("[{} failing steps in total for this obligation] {}", n, r.detail), r.input, r.detail.clone());
     }
     for (k, c) in &total.counts { eprintln!("c11: obligation {} failed at {} steps", k, c); }
+    for (k, v) in &total.sigs { for x in v { eprintln!("c11-debug {} :: {}", k, x); } }
     rep
 }
 
